@@ -79,6 +79,9 @@ type Replica struct {
 	History []string // merge history (sources' set keys), to tell merge sequences apart
 }
 
+// Deny makes the replica's access controller refuse everything (appends and merges) from now on, or permit again.
+func (r *Replica) Deny(on bool) { r.AC.deny.Store(on) }
+
 type World struct {
 	Prog  *Prog
 	Store *fakeipfs.Store
